@@ -97,6 +97,37 @@ pub async fn replayed_until(a: &LocalAccount, id: &VaultId, commit: sos_core::co
     view_of(view.keeper()).await
 }
 
+
+/// C12 (key side): the folder's cipher, its current private key (derived from the stored folder
+/// password and the salt / KDF / seed in the header of its creation event), and every encrypted
+/// blob the folder stores: in its event log and, on the file system, in its vault file.
+pub async fn key_and_blobs(a: &LocalAccount, id: &VaultId) -> Result<(sos_core::crypto::Cipher, sos_core::crypto::PrivateKey, Vec<sos_core::crypto::AeadPack>), String> {
+    use sos_core::{crypto::KeyDerivation, events::{EventLog, WriteEvent}, VaultCommit, VaultEntry};
+    use sos_vault::Vault;
+    let events = { let log = a.folder_log(id).await.map_err(|e| e.to_string())?; let l = log.read().await; l.diff_events(None).await.map_err(|e| e.to_string())?.into_events::<WriteEvent>().await.map_err(|e| e.to_string())? };
+    let header: Vault = match events.first() { Some(WriteEvent::CreateVault(buf)) => sos_core::decode(buf).await.map_err(|e| e.to_string())?, _ => return Err("log does not start with create vault".into()) };
+    let mut blobs = vec![];
+    if let Some(m) = header.header().meta() { blobs.push(m.clone()); }
+    for e in &events {
+        match e {
+            WriteEvent::CreateSecret(_, VaultCommit(_, VaultEntry(m, s))) | WriteEvent::UpdateSecret(_, VaultCommit(_, VaultEntry(m, s))) => { blobs.push(m.clone()); blobs.push(s.clone()); }
+            WriteEvent::SetVaultMeta(m) => blobs.push(m.clone()),
+            _ => {}
+        }
+    }
+    // the vault mirror on disk (file-system backend)
+    let vp = a.paths().vault_path(id);
+    if let Ok(bytes) = std::fs::read(&vp) {
+        let v: Vault = sos_core::decode(&bytes).await.map_err(|e| format!("vault file: {e}"))?;
+        if let Some(m) = v.header().meta() { blobs.push(m.clone()); }
+        for (_, VaultCommit(_, VaultEntry(m, s))) in v.iter() { blobs.push(m.clone()); blobs.push(s.clone()); }
+    }
+    let pw = a.find_folder_password(id).await.map_err(|e| e.to_string())?.ok_or("no folder password")?;
+    let salt = KeyDerivation::parse_salt(header.salt().ok_or("no salt")?).map_err(|e| e.to_string())?;
+    let key = pw.into_private(header.kdf(), &salt, header.seed()).map_err(|e| e.to_string())?;
+    Ok((header.cipher().clone(), key, blobs))
+}
+
 fn same_content(a: &FView, b: &FView) -> bool {
     let mut x = a.secrets.clone(); let mut y = b.secrets.clone();
     x.sort(); y.sort();
@@ -296,6 +327,68 @@ pub async fn run_case(backend: &str, seed: u64, rep: &mut Report, ops: &mut Vec<
             let i = rng.below(extra_folders.len() as u64) as usize;
             let id = extra_folders.remove(i);
             if a.delete_folder(&id).await.is_ok() { live.remove(&id); cx.script.push(format!("delete_folder {id}")); }
+        } else if kind < 91 && !two {
+            // key change (C12): folder password, or account cipher / KDF
+            use sos_core::crypto::{Cipher, KeyDerivation};
+            let all: Vec<VaultId> = live.keys().copied().collect();
+            let which = rng.below(3);
+            let targets: Vec<VaultId> = if which == 0 { vec![folder] } else { all.clone() };
+            let mut old = vec![];
+            let mut before_views = BTreeMap::new();
+            for t in &targets {
+                match key_and_blobs(&a, t).await {
+                    Ok((c, k, blobs)) => {
+                        for b in &blobs { if c.decrypt_symmetric(&k, b).await.is_err() { cx.fail("c12-harness-current-key-does-not-open-a-stored-blob", "self-check of the old-key probe failed"); } }
+                        old.push((*t, c, k, blobs.len()));
+                    }
+                    Err(e) => cx.fail("c12-harness-key-probe-error", &e),
+                }
+                if let Ok(v) = served(&mut a, t).await { before_views.insert(*t, v); }
+            }
+            let opname; let res;
+            if which == 0 {
+                opname = "change-folder-password";
+                let nk: AccessKey = secrecy::SecretString::from(format!("new folder password {}", rng.below(1_000_000))).into();
+                res = a.change_folder_password(&folder, nk).await.map(|_| ()).map_err(|e| e.to_string());
+            } else {
+                // flip the cipher, keep or flip the KDF
+                let cur = old.first().map(|o| o.1.clone()).unwrap_or(Cipher::AesGcm256);
+                let nc = if cur == Cipher::AesGcm256 { Cipher::XChaCha20Poly1305 } else { Cipher::AesGcm256 };
+                let nk = if which == 1 { None } else { Some(KeyDerivation::BalloonHash) };
+                opname = if which == 1 { "change-cipher-same-kdf" } else { "change-cipher-and-kdf" };
+                res = a.change_cipher(&key, &nc, nk).await.map(|_| ()).map_err(|e| e.to_string());
+            }
+            match res {
+                Ok(()) => {
+                    cx.script.push(format!("{opname} {}", if which == 0 { folder.to_string() } else { "all".into() }));
+                    cx.rep.count(&format!("op:{opname}"));
+                    for (t, oc, ok_, nblobs) in &old {
+                        // data kept
+                        match (before_views.get(t), served(&mut a, t).await) {
+                            (Some(b), Ok(af)) => if !same_content(b, &af) { let what = if b.flags != af.flags { "flags" } else if b.name != af.name { "name" } else if b.desc != af.desc { "description" } else { "secrets" }; cx.fail(&format!("c12-{opname}-changed-{what}"), "folder differs after the key change"); },
+                            (_, Err(e)) => cx.fail(&format!("c12-{opname}-folder-unreadable"), &e),
+                            _ => {}
+                        }
+                        // the replay of the rebuilt log is the same folder
+                        if let (Some(b), Ok(rp)) = (before_views.get(t), replayed(&a, t).await) { if !same_content(b, &rp) { cx.fail(&format!("c12-{opname}-log-replays-to-different-folder"), "replay of the rebuilt log differs from the folder before the key change"); } }
+                        // no blob under the old key remains
+                        match key_and_blobs(&a, t).await {
+                            Ok((nc, _nk, blobs)) => {
+                                let mut still = 0;
+                                for b in &blobs { if oc.decrypt_symmetric(ok_, b).await.is_ok() { still += 1; } }
+                                if still > 0 { cx.fail(&format!("c12-blob-still-opens-with-old-key-after-{opname}"), &format!("{still} of {} stored blobs of the folder open with the key used before (there were {nblobs})", blobs.len())); }
+                                if which != 0 && &nc == oc { cx.fail(&format!("c12-folder-keeps-old-cipher-after-{opname}"), "folder header still names the old cipher"); }
+                                let livec = live.get(t).map(|m| m.len()).unwrap_or(0);
+                                let n = { let log = a.folder_log(t).await.map_err(|e| anyhow::anyhow!(e.to_string()))?; let l = log.read().await; use sos_core::events::EventLog; l.tree().len() };
+                                if n != 1 + livec { cx.fail(&format!("c12-{opname}-log-shape"), &format!("log has {n} events, expected 1 + {livec}")); }
+                            }
+                            Err(e) => cx.fail(&format!("c12-{opname}-key-probe-error"), &e),
+                        }
+                    }
+                    if targets.contains(&default) { model_line = Some("folder compact".into()); }
+                }
+                Err(e) => cx.fail(&format!("c12-{opname}-error"), &e),
+            }
         } else if kind < 93 {
             // compaction (C12): content unchanged, log = 1 + live
             let before = served(&mut a, &folder).await;
@@ -305,6 +398,9 @@ pub async fn run_case(backend: &str, seed: u64, rep: &mut Report, ops: &mut Vec<
                     let after = served(&mut a, &folder).await;
                     if let (Ok(b), Ok(af)) = (&before, &after) {
                         if !same_content(b, af) { let what = if b.flags != af.flags { "flags" } else if b.name != af.name { "name" } else if b.desc != af.desc { "description" } else { "secrets" }; cx.fail(&format!("c12-compaction-changed-{what}"), "folder differs after compaction"); }
+                    }
+                    if let (Ok(b), Ok(rp)) = (&before, &replayed(&a, &folder).await) {
+                        if !same_content(b, rp) { let what = if b.flags != rp.flags { "flags" } else if b.name != rp.name { "name" } else if b.desc != rp.desc { "description" } else { "secrets" }; cx.fail(&format!("c12-compacted-log-replays-with-different-{what}"), "replay of the compacted log differs from the folder before compaction"); }
                     }
                     let n = { let log = a.folder_log(&folder).await.map_err(|e| anyhow::anyhow!(e.to_string()))?; let l = log.read().await; use sos_core::events::EventLog; l.tree().len() };
                     let livec = live.get(&folder).map(|m| m.len()).unwrap_or(0);
